@@ -329,7 +329,12 @@ def _work(item):
             # same object again after an in-place detour (first node / first edge removed and re-inserted): results must
             # come from the current structure, not from anything remembered about this object
             F.detour(H)
+            F.morph(H)  # ... and then into a different network with the same node and edge counts
             ck2 = check_network(H, wkind)
+            F.grow(H)  # ... and then one more edge with a fresh ID
+            ck3 = check_network(H, wkind)
+            ck2.out += [(m, "(after a further edge was added) " + msg, t) for m, msg, t in ck3.out]
+            ck2.n += ck3.n
             out = [(m, msg, t, spec) for m, msg, t in ck.out]
             out += [(m, "[second evaluation of the same object after remove+re-add of its first node and edge] " + msg, t, spec)
                     for m, msg, t in ck2.out]
@@ -362,6 +367,9 @@ def family(tier):
             u = dict(s)
             u["eattr"] = {i: {"weight": WEIGHTS["large"](i)} for i in range(m)}
             items.append((u, "large"))
+    for s in base[::9]:
+        for _, nm in F.exotic_label_maps(s["nodes"]):
+            items.append((F.relabel(s, node_map=nm), "absent"))
     items.append((F.with_empty_edge(F.H([[1, 2], [2, 3]])), "absent"))
     items.append((F.H([], nodes=[]), "absent"))
     return items
